@@ -96,6 +96,8 @@ pub fn session_events(msgs: &[Value], frames: &[Value], server_events: &[Value])
                 e["outcome"] = json!("result");
                 if let Some(s) = f["result"].as_str() {
                     e["text"] = json!(s);
+                } else if e["method"] == "$/verif/text" && f["result"].is_null() {
+                    e["text"] = json!("<no document>"); // TraceNoDoc: the document is not open
                 }
             }
         }
